@@ -170,7 +170,8 @@ func pbProbe(p interface {
 			v.add("C15", site+"|probe-panic", "read accessor panicked: %v (Off=%d len=%d)", r, off, l)
 		}
 	}()
-	for _, x := range []int{off - 1, off, off + 1, off + l - 1, off + l, off + l + 1} {
+	// ... and the same positions 2^32 bytes further on / back (a 32-bit difference would wrap to a retained offset)
+	for _, x := range []int{off - 1, off, off + 1, off + l - 1, off + l, off + l + 1, off + 1<<32, off + 1<<32 + l - 1, off + 1<<32 + l, off - 1<<32, off - 1<<32 + l - 1} {
 		i := x - off
 		inside := i >= 0 && i < l
 		// ByteAt
